@@ -9,7 +9,7 @@ import BfeVerif.C09.Model
                                                         subspec = sname "~" [backend ("," backend)*] ; backend = name "@" addr "@" port "@" weight
   events  = "-" | ev ("," ev)*                          ev = (d|u|f|c) "." cname "." sname "." addr "." port   (applied after the reload and after the listing,
                                                         to the first backend of that sub-cluster with that address: SetAvail(false/true), AddFailNum, IncConnNum)
-  result  = per step  status "#" table "#" grave "#" sel   (see `showStep`); a panic ends the case with `panic`.
+  result  = per step  (`initfail` ends the case when BalTable.Init fails in gslbInit)  status "#" table "#" grave "#" sel   (see `showStep`); a panic ends the case with `panic`.
   `sel` (backends returned by Balance probes) is not predicted by the model: it is copied from the implementation's
   line and judged by the oracle only (selected ⊆ reachable, unreleased, available).
 -/
@@ -158,19 +158,24 @@ def judgeStep (stp : Step) (prev : List Cluster) (status : String) (tbl : List C
           (((stp.bc.lookup cn).bind (·.lookup sn)).getD []).map (·.key)
         else confKeys stp.bc cn sn
       match have_ with
-      | none => if hadGslbErr then none else some "subcluster-missing"
+      | none => if decide (confTotal gc ≤ 0) then none else some "subcluster-missing"
       | some h =>
         if sameMultiset h want then none
-        else if hadGslbErr then some "reload-err-backends-differ"
+        else if decide (confTotal gc ≤ 0) && (stp.bc.lookup cn).isSome && ((stp.bc.lookup cn).bind (·.lookup sn)).isSome then some "reload-err-backends-differ"
         else if (stp.bc.lookup cn).isNone then some "cluster-missing-in-table-keeps-backends"
         else if ((stp.bc.lookup cn).bind (·.lookup sn)).isNone then some "subcluster-missing-in-table-keeps-backends"
         else some "backends-differ-from-conf"
-  match bad with
+  let rejectedChanged := stp.kind == "L" && stp.g.any fun (cn, gc) =>
+    decide (confTotal gc ≤ 0) &&
+      match prev.find? (·.name == cn) with
+      | some pc => ((tbl.find? (·.name == cn)).map fun c => c.subs.map fun s => (s.name, s.weight)) != some (pc.subs.map fun s => (s.name, s.weight))
+      | none => false
+  match bad.orElse (fun _ => if rejectedChanged then some "rejected-conf-changed-cluster" else none) with
   | some c => some c
   | none =>
   -- clusters / sub-clusters that are not in the gslb conf must be gone
   if tbl.any (fun c => (stp.g.lookup c.name).isNone) then some "removed-cluster-reachable"
-  else if !hadGslbErr && tbl.any (fun c => c.subs.any fun s => ((stp.g.lookup c.name).bind (·.lookup s.name)).isNone) then some "removed-subcluster-reachable"
+  else if tbl.any (fun c => !(decide (confTotal ((stp.g.lookup c.name).getD []) ≤ 0)) && c.subs.any fun s => ((stp.g.lookup c.name).bind (·.lookup s.name)).isNone) then some "removed-subcluster-reachable"
   else
   -- survivors keep their state, new ones are fresh
   let lost := tbl.any fun c => c.subs.any fun s =>
@@ -214,7 +219,11 @@ def run (op impl : String) : Ans :=
         let implS := impls.headD ""
         let f := implS.splitOn "#"
         let selStr := f.getD 3 "-"
-        if panicked r.st then
+        if stp.kind == "I" && r.gslbErr then
+          -- BalTable.Init returned the gslbInit error before backendInit: the server does not start, the history ends
+          let v := a.verdict.orElse fun _ => if implS == "initfail" then none else some "unparsable"
+          { a with out := a.out ++ ["initfail"], stop := true, verdict := v, tags := addTag "init-fail" a.tags }
+        else if panicked r.st then
           let v := a.verdict.orElse fun _ =>
             if implS == "panic" then judgeStep stp a.implPrev "panic" [] [] [] r.gslbErr else some "unparsable"
           { a with out := a.out ++ ["panic"], stop := true, verdict := v, tags := addTag "panic" a.tags }
